@@ -81,18 +81,26 @@ MEMBERS = [
     'C13_options_same_written_dedup_linked',
     'C13_options_same_written_provenance_linked',
     'C13_options_same_written_tr_linked',
+    'C13_senv_of_ok',
+    'C13_pot_fill_tr_inv',
+    'C13_options_same_written_tr_env_linked',
     'C13_fill_tr_items',
+    'C13_finish_is_c01_prune_linked',
 ]
 TRUSTED = [
-    'hand-written model coq/C13/Model.v (modelled, tied by execution only)',
+    'hand-written models coq/C13/Model.v and ModelTr.v (modelled, tied by '
+    'execution: 13 ties incl. captured FILL loops of real conversions)',
     'Python dict lookup by hash then ==: modelled as "first stored key equal '
-    'to the probe"; the tie checks on the implementation that equal '
-    'descriptors hash alike',
+    'to the probe"; C13_hash_consistent proves the hash structure consistent '
+    'with ==, the tie checks the structure and the element-hash law on the '
+    'implementation; Python\'s tuple / float hash functions stay abstract',
     'binary64 == on finite numbers is PrimFloat.eqb; that eqb true implies '
     'equality of the represented reals is Flocq\'s Beqb correctness (cited, '
-    'not imported); theorems are stated at R',
-    'theorems about inlining hold for every to_inline set; the float score '
-    '(size / mentions < max) is modelled over Scalar T and tied at binary64',
+    'not imported); theorems are stated at R or for every scalar',
+    'the conversion of cell trees into volumes and the VOLU lines: C01\'s '
+    'model, linked in Coq (C13_*_linked: C01_partition applied through an '
+    'embedding; C13_finish_is_c01_prune_linked: the two models of the tail of '
+    'convertMCNPGeometry agree up to the representation of sets)',
     'TRIPOLI-4 reading of SURF/VOLU lines (DESIGN Appendix B) in t4eval and in '
     'the sense-assignment evaluator of harness/c13_sweep.py',
     'harness: generators, impl.T4File reader, PEG shim replacing TatSu',
@@ -102,8 +110,15 @@ ASSUMPTIONS = [
     'items by identity first)',
     'cell geometry at inlining time is never a bare CellRef (pot_fill always '
     'builds a (\'*\', ., .) node)',
-    'pot_fill is modelled for cells without FILL/TRCL transformations; with '
-    'transformations only the sweep covers it',
+    'with FILL/TRCL transformations (C13_options_same_written_tr_env_linked): '
+    'the surface environment of each run is constructed from the senses of '
+    'the deck\'s surfaces by the interface law (discharged: C13_senv_of_ok); '
+    'still assumed: a model D of the final cell table of each run, and the '
+    'TRIPOLI-4 level reading of that environment at the point (C02/C04); the '
+    'conversion lists are given; lattices (develop_lattice) are outside',
+    'helper planes: sigma u0 -> sigma u1 (x > 1 implies x > -1) is a '
+    'hypothesis of the volume-level theorems (C01_partition_points proves it '
+    'for real points)',
 ]
 HEADER = ('From Coq Require Import List NArith ZArith Bool PrimFloat.\n'
           'From T4V Require Import Base.Scalar C13.Model C13.ModelTr C13.Exec.\n'
